@@ -59,7 +59,7 @@ mut("c03_f5_revert", "src/blob/index/bptree/core.rs", "        if self.file.size
 mut("c03_f6_revert", "src/storage/core.rs", "let max_blob_id = max_blob_id.max(Self::max_old_corrupted_blob_id(&self.inner.config).await);", "", ["C03", "C07"], "reverts fix F6")
 # ---- C06
 mut("c06_eof_not_bincode", "src/error.rs", "        if self.kind() == IOErrorKind::UnexpectedEof {\n            Error::bincode(", "        if false && self.kind() == IOErrorKind::UnexpectedEof {\n            Error::bincode(", ["C06"], "EOF no longer classified as corruption: init fails on a torn blob")
-mut("c06_validation_not_saved", "src/storage/core.rs", "                    !matches!(kind, ValidationErrorKind::BlobVersion)", "                    !matches!(kind, ValidationErrorKind::BlobVersion | ValidationErrorKind::RecordHeaderChecksum)", ["C06", "C07"], "OUTSIDE the stated properties: a record header checksum error aborts init instead of quarantining; needs a flipped or garbage header byte in a blob, which no property quantifies over (C06: truncation lengths; C05: data bytes; C03: index files). The zero-filled-tail observations of C06 show it, unjudged")
+mut("c06_validation_not_saved", "src/storage/core.rs", "                    !matches!(kind, ValidationErrorKind::BlobVersion)", "                    !matches!(kind, ValidationErrorKind::BlobVersion | ValidationErrorKind::RecordHeaderChecksum)", ["C06", "C07"], "a record header checksum error aborts init instead of quarantining the blob. Needs a damaged record header in a blob: MISSED while C06 only truncated files; CAUGHT since C06 judges init on zero-filled tails (a zero-filled tail behind an intact prefix of a header yields exactly that error)")
 mut("c06_no_fresh_active", "src/storage/core.rs", "            if blobs.is_empty() {\n                let next = self.inner.next_blob_name()?;", "            if false {\n                let next = self.inner.next_blob_name()?;", ["C06"], "no fresh active blob when everything was quarantined")
 mut("c06_index_written_first", "src/blob/index/bptree/core.rs", "        file.write_append_all(buf.freeze()).await?;\n        header.set_written(true);", "        header.set_written(true);\n        let mut buf = buf; { let mut h = BytesMut::with_capacity(128); serialize_into((&mut h).writer(), &header)?; buf[..h.len()].copy_from_slice(&h); }\n        file.write_append_all(buf.freeze()).await?;", ["C06", "C03"], "EQUIVALENT given the size validation (fix ca281bb): a torn index body is shorter than the header says")
 mut("c06_torn_tail_accepted", "src/blob/core.rs", "        if record_end > self.file.size() {", "        if false && record_end > self.file.size() {", ["C06"], "reverts fix: torn data of last record accepted")
